@@ -535,8 +535,8 @@ Section RootSound.
           destruct (deny_of no); [discriminate | reflexivity].
       + simpl in S2. congruence.
     - (* DStruct *)
-      apply andb_true_iff in L. destruct L as [Lc L]. unfold struct_x in L.
-      split_and L.
+      apply andb_true_iff in L. destruct L as [Lc L]. apply andb_true_iff in Lc. destruct Lc as [Lc Lni].
+      unfold struct_x in L. split_and L.
       cbn [de_node] in Hde. destruct v; try (cbn [de_struct_body] in Hde; discriminate);
         try (simpl in S1; discriminate S1).
       + destruct (common_parts ed dd (JObj kvs) Lc He Hd) as [P1 P2].
@@ -927,3 +927,468 @@ Section MemberStep.
       exact (exact_root_sound re native D T A s' t' xv f' y Gx Q (Hstd t')).
   Qed.
 End MemberStep.
+
+(* ================================================================== Part 5: soundness at any depth *)
+Lemma mapM_some_in {X Y} (g : X -> option Y) l r x : mapM g l = Some r -> In x l -> g x <> None.
+Proof. intros H. apply (proj1 (mapM_ok g l)). congruence. Qed.
+
+Lemma zipM_nth {X Y W} (g : X -> Y -> option W) ts l r i t x :
+  zipM g ts l = Some r -> nth_error ts i = Some t -> nth_error l i = Some x -> g t x <> None.
+Proof.
+  revert l r i. induction ts as [|t0 ts IH]; intros [|y l] r i; simpl; try discriminate.
+  - destruct i; discriminate.
+  - destruct (g t0 y) eqn:G; [|discriminate]. destruct (zipM g ts l) eqn:Z; [|discriminate]. intros _.
+    destruct i; simpl.
+    + intros H1 H2. inversion H1. inversion H2. subst. congruence.
+    + intros H1 H2. eapply IH; eassumption.
+Qed.
+
+Lemma ex_list_nth (ex : schema -> id -> bool) ss ts i s' :
+  ex_list ex ss ts = true -> nth_error ss i = Some s' -> exists t', nth_error ts i = Some t' /\ ex s' t' = true.
+Proof.
+  revert ts i. induction ss as [|s0 ss IH]; intros [|t0 ts] i; simpl; try discriminate.
+  - destruct i; discriminate.
+  - intros H. apply andb_true_iff in H. destruct H as [H1 H2]. destruct i; simpl.
+    + intros E. inversion E. subst. exists t0. split; [reflexivity | exact H1].
+    + intros E. apply (IH ts i H2 E).
+Qed.
+
+Section Resolve.
+  Variables re native : ustring -> ustring -> bool.
+  Variable D : defs.
+  Variable T : space.
+  Variable ex : schema -> id -> bool.
+  Variables (ty : option (list itype)) (enum : option (list json)) (cst : option json) (sv : strv)
+            (ik : items_kind) (items : list schema) (mni mxi : option N)
+            (props : list (ustring * schema)) (req : list ustring) (ap no : option schema).
+
+  Local Notation de := (Serde.de re native T).
+  Local Notation dv := (Serde.default_val T).
+  Local Notation GO := (go_plain re D T ex ty enum cst sv ik items mni mxi props req ap no).
+  Local Notation LEAF := (leaf_x re D T ex ty enum cst sv ik items mni mxi props req ap no).
+
+  Ltac split_and H :=
+    repeat match type of H with
+           | (?a && ?b = true) => let H' := fresh "L" in apply andb_true_iff in H; destruct H as [H H']
+           end.
+
+  (* unwrapping Box / plain newtype / Option / allow and deny lists down to the leaf *)
+  Lemma go_resolve : forall ft ed dd t v f x,
+    GO ed dd ft t = true -> de f t v = Some x -> v <> JNull ->
+    exists ed' dd' d f0 x0, LEAF ed' dd' d = true /\ de_node re native T (de f0) (dv f0) d v = Some x0.
+  Proof.
+    induction ft as [|ft IH]; intros ed dd t v f x G Hde Hn; [discriminate|].
+    rewrite go_S in G. destruct (de_some_S re native T _ _ _ _ Hde) as [f' ->].
+    destruct (get_det T t) as [d|] eqn:E; [|discriminate].
+    rewrite (de_at re native T _ _ _ _ E) in Hde.
+    destruct (wrapper_of d) as [t'|] eqn:W.
+    - destruct d; try discriminate.
+      + destruct c; try discriminate. simpl in W. inversion W. subst. cbn [de_node] in Hde. eapply IH; eassumption.
+      + simpl in W. inversion W. subst. cbn [de_node] in Hde. eapply IH; eassumption.
+    - destruct d; try (exists ed, dd; do 3 eexists; split; [exact G | exact Hde]).
+      + destruct c.
+        * discriminate W.
+        * apply andb_true_iff in G. destruct G as [G1 G2]. cbn [de_node] in Hde.
+          destruct (de f' inner v) eqn:Di; [|discriminate]. eapply IH; eassumption.
+        * apply andb_true_iff in G. destruct G as [G1 G2]. cbn [de_node] in Hde.
+          destruct (de f' inner v) eqn:Di; [|discriminate]. eapply IH; eassumption.
+        * exists ed, dd. do 3 eexists. split; [exact G | exact Hde].
+      + apply andb_true_iff in G. destruct G as [G G4]. cbn [de_node] in Hde.
+        assert (Hx : exists x', de f' t0 v = Some x').
+        { destruct v; [congruence | ..]; eapply opt_inner; exact Hde. }
+        destruct Hx as [x' Hx']. eapply IH; eassumption.
+  Qed.
+
+  (* the alternative wire forms are excluded by the schema's "type" *)
+  Definition altf (v : json) : bool :=
+    match v with
+    | JArr _ => negb (valid_type serde_ints ty (JObj []))
+    | JObj _ => negb (valid_type serde_ints ty (JStr []))
+    | _ => true
+    end.
+
+  Lemma leaf_std ed dd d v :
+    LEAF ed dd d = true -> altf v = true ->
+    negb (seq_for_struct d v) && negb (obj_for_unit_variant d v) = true.
+  Proof.
+    intros L Ha. destruct d; try (destruct v; reflexivity).
+    - (* DEnum *) destruct v; try (destruct tag; reflexivity).
+      cbn [leaf_x] in L. destruct tag; try discriminate. split_and L.
+      match goal with H : ty_rep _ _ = true |- _ =>
+        unfold ty_rep in H; cbn [forallb] in H; rewrite andb_true_r in H; cbn [altf] in Ha; rewrite H in Ha end.
+      discriminate.
+    - (* DStruct *) destruct v; try reflexivity.
+      cbn [leaf_x] in L. apply andb_true_iff in L. destruct L as [_ L]. unfold struct_x in L. split_and L.
+      match goal with H : ty_rep _ _ = true |- _ =>
+        unfold ty_rep in H; cbn [forallb] in H; rewrite andb_true_r in H; cbn [altf] in Ha; rewrite H in Ha end.
+      discriminate.
+  Qed.
+
+  Lemma go_std : forall ft ed dd t v,
+    GO ed dd ft t = true -> altf v = true -> std_wire_at T ft t v = true.
+  Proof.
+    induction ft as [|ft IH]; intros ed dd t v G Ha; [discriminate|].
+    rewrite go_S in G. cbn [std_wire_at].
+    destruct (get_det T t) as [d|] eqn:E; [|reflexivity].
+    destruct (wrapper_of d) as [t'|] eqn:W.
+    - destruct d; try discriminate.
+      + destruct c; try discriminate. simpl in W. inversion W. subst. eapply IH; eassumption.
+      + simpl in W. inversion W. subst. eapply IH; eassumption.
+    - destruct d; try (eapply leaf_std; eassumption).
+      + destruct c.
+        * discriminate W.
+        * apply andb_true_iff in G. destruct G as [_ G]. eapply IH; eassumption.
+        * apply andb_true_iff in G. destruct G as [_ G]. eapply IH; eassumption.
+        * reflexivity.
+      + apply andb_true_iff in G. destruct G as [_ G]. eapply IH; eassumption.
+      + discriminate W.
+  Qed.
+
+  (* ---------------------------------------------------------------- children of a leaf *)
+  Lemma opt_inner_ne f0 t' xv :
+    xv <> JNull ->
+    (forall od, match xv with
+                | JNull => Some ROptNone
+                | _ => match od with Some (DOption _) => de f0 t' xv | _ => option_map ROptSome (de f0 t' xv) end
+                end <> None -> de f0 t' xv <> None).
+  Proof.
+    intros Hn od H. destruct xv; [congruence | ..];
+      (destruct od as [[]|]; rewrite ?option_map_ok in H; exact H).
+  Qed.
+
+  (* a declared property that is present *)
+  Lemma leaf_prop ed dd d f0 kvs x0 k s' xv :
+    LEAF ed dd d = true -> de_node re native T (de f0) (dv f0) d (JObj kvs) = Some x0 ->
+    In (k, s') props -> assoc k kvs = Some xv -> xv <> JNull ->
+    exists t' f', ex s' t' = true /\ de f' t' xv <> None.
+  Proof.
+    intros L Hde Hin Hk Hn. destruct d; cbn [leaf_x] in L; try discriminate; cbn [de_node] in Hde; try discriminate;
+      try (destruct c; discriminate).
+    - (* DEnum: only the {"raw": null} form, whose single member is null *)
+      destruct tag; try discriminate. cbn [de_enum] in Hde.
+      destruct kvs as [|[k0 pj] [|kv2 r]]; try discriminate.
+      destruct (find_variant k0 vs 0) as [[i vr]|] eqn:F; [|discriminate].
+      split_and L. destruct (find_variant_some _ _ _ _ _ F) as [Hv _].
+      unfold all_simple in L. apply (proj1 (forallb_forall _ _) L) in Hv.
+      destruct (v_det vr); try discriminate. cbn [de_payload option_map] in Hde.
+      cbn [assoc] in Hk. destruct (ustr_eqb k k0); [|discriminate]. inversion Hk. subst.
+      destruct xv; try discriminate. congruence.
+    - (* DStruct *)
+      apply andb_true_iff in L. destruct L as [_ L]. unfold struct_x in L. split_and L.
+      apply (proj1 (forallb_forall _ _) L1) in Hin. cbn [fst snd] in Hin.
+      destruct (find_wire k props0) as [p|] eqn:F; [|discriminate].
+      destruct (find_wire_some _ _ _ F) as [Hp Hw].
+      cbn [de_struct_body] in Hde.
+      assert (H1 : de_struct_obj T (de f0) (dv f0) props0 deny kvs <> None)
+        by (destruct (de_struct_obj T (de f0) (dv f0) props0 deny kvs); [congruence | discriminate]).
+      apply de_struct_obj_ok in H1. destruct H1 as [H1 _]. rewrite de_named_ok in H1.
+      specialize (H1 p k Hp Hw). unfold member_val in H1. rewrite Hk in H1.
+      apply orb_true_iff in Hin. destruct Hin as [Hin|Hin].
+      + exists (p_ty p), f0. split; assumption.
+      + destruct (p_state p); try discriminate.
+        destruct (get_det T (p_ty p)) as [[]|] eqn:Ed; try discriminate.
+        destruct f0 as [|f1]; [exfalso; apply H1; reflexivity|].
+        rewrite (de_at re native T _ _ _ _ Ed) in H1. cbn [de_node] in H1.
+        exists t, f1. split; [exact Hin|]. eapply opt_inner_ne; eassumption.
+    - (* DMap: no declared property *)
+      split_and L. destruct props; [destruct Hin | discriminate].
+    - (* DJsonValue *)
+      split_and L. match goal with H : no_children _ _ _ = true |- _ => unfold no_children in H; split_and H end. destruct props; [destruct Hin | discriminate].
+  Qed.
+
+  (* an element of an array described by one "items" schema *)
+  Lemma leaf_item ed dd d f0 l x0 s' x :
+    LEAF ed dd d = true -> de_node re native T (de f0) (dv f0) d (JArr l) = Some x0 ->
+    ik = ItemsSingle -> items = [s'] -> In x l ->
+    exists t', ex s' t' = true /\ de f0 t' x <> None.
+  Proof.
+    intros L Hde Hik Hit Hin.
+    destruct d; cbn [leaf_x] in L; try discriminate; cbn [de_node] in Hde; try discriminate;
+      try (destruct c; discriminate).
+    - destruct tag; discriminate.
+    - split_and L. match goal with H : no_items _ = true |- _ => unfold no_items in H; rewrite Hik in H; discriminate H end.
+    - split_and L. unfold elem_x in L0. rewrite Hik, Hit in L0.
+      destruct (mapM (de f0 t) l) eqn:M; [|discriminate]. exists t. split; [exact L0 | eapply mapM_some_in; eassumption].
+    - split_and L. unfold elem_x in L0. rewrite Hik, Hit in L0.
+      destruct (mapM (de f0 t) l) eqn:M; [|discriminate]. exists t. split; [exact L0 | eapply mapM_some_in; eassumption].
+    - split_and L. unfold elem_x in L0. rewrite Hik, Hit in L0.
+      destruct (N.eqb (N.of_nat (length l)) n); [|discriminate].
+      destruct (mapM (de f0 t) l) eqn:M; [|discriminate]. exists t. split; [exact L0 | eapply mapM_some_in; eassumption].
+    - split_and L. rewrite Hik in L0. discriminate.
+    - split_and L. match goal with H : no_children _ _ _ = true |- _ => unfold no_children in H; split_and H end.
+      match goal with H : no_items _ = true |- _ => unfold no_items in H; rewrite Hik in H; discriminate H end.
+  Qed.
+
+  (* a tuple position *)
+  Lemma leaf_tuple ed dd d f0 l x0 i s' x :
+    LEAF ed dd d = true -> de_node re native T (de f0) (dv f0) d (JArr l) = Some x0 ->
+    ik = ItemsTuple -> nth_error items i = Some s' -> nth_error l i = Some x ->
+    exists t', ex s' t' = true /\ de f0 t' x <> None.
+  Proof.
+    intros L Hde Hik Hs Hx.
+    destruct d; cbn [leaf_x] in L; try discriminate; cbn [de_node] in Hde; try discriminate;
+      try (destruct c; discriminate).
+    - destruct tag; discriminate.
+    - split_and L. match goal with H : no_items _ = true |- _ => unfold no_items in H; rewrite Hik in H; discriminate H end.
+    - split_and L. unfold elem_x in L0. rewrite Hik in L0. discriminate.
+    - split_and L. unfold elem_x in L0. rewrite Hik in L0. discriminate.
+    - split_and L. unfold elem_x in L0. rewrite Hik in L0. discriminate.
+    - split_and L. rewrite Hik in L0.
+      destruct (ex_list_nth _ _ _ _ _ L0 Hs) as [t' [Ht He]].
+      destruct (zipM (de f0) ts l) eqn:Z; [|discriminate].
+      exists t'. split; [exact He | eapply zipM_nth; eassumption].
+    - split_and L. match goal with H : no_children _ _ _ = true |- _ => unfold no_children in H; split_and H end.
+      match goal with H : no_items _ = true |- _ => unfold no_items in H; rewrite Hik in H; discriminate H end.
+  Qed.
+
+  (* a value admitted by a typed additionalProperties *)
+  Lemma leaf_addl ed dd d f0 kvs x0 sa k x :
+    LEAF ed dd d = true -> de_node re native T (de f0) (dv f0) d (JObj kvs) = Some x0 ->
+    ap = Some sa -> typed_schema sa = true -> In (k, x) kvs -> has_key k props = false -> x <> JNull ->
+    exists t' f', ex sa t' = true /\ de f' t' x <> None.
+  Proof.
+    intros L Hde Hap Hty Hin Hk Hn.
+    destruct d; cbn [leaf_x] in L; try discriminate; cbn [de_node] in Hde; try discriminate;
+      try (destruct c; discriminate).
+    - (* DEnum: only {"raw": null}, whose single value is null *)
+      destruct tag; try discriminate. cbn [de_enum] in Hde.
+      destruct kvs as [|[k0 pj] [|kv2 r]]; try discriminate.
+      destruct (find_variant k0 vs 0) as [[i vr]|] eqn:F; [|discriminate].
+      split_and L. destruct (find_variant_some _ _ _ _ _ F) as [Hv _].
+      unfold all_simple in L. apply (proj1 (forallb_forall _ _) L) in Hv.
+      destruct (v_det vr); try discriminate. cbn [de_payload option_map] in Hde.
+      destruct Hin as [Hin|[]]. inversion Hin. subst. destruct x; try discriminate. congruence.
+    - (* DStruct: the flattened map receives every entry that is not a member *)
+      apply andb_true_iff in L. destruct L as [_ L]. unfold struct_x in L. split_and L.
+      rewrite Hap in L0. destruct sa as [b|]; [discriminate|].
+      destruct (flat_props props0) as [|fp [|fp2 r]] eqn:Fl; try discriminate.
+      destruct (get_det T (p_ty fp)) as [[]|] eqn:Ed; try discriminate.
+      apply andb_true_iff in L0. destruct L0 as [Lx Lw].
+      cbn [de_struct_body] in Hde.
+      assert (H1 : de_struct_obj T (de f0) (dv f0) props0 deny kvs <> None)
+        by (destruct (de_struct_obj T (de f0) (dv f0) props0 deny kvs); [congruence | discriminate]).
+      apply de_struct_obj_ok in H1. destruct H1 as [_ H1]. unfold flat_stage_ok in H1. rewrite Fl in H1.
+      destruct H1 as [_ H1].
+      destruct f0 as [|f1]; [exfalso; apply H1; reflexivity|].
+      rewrite (de_at re native T _ _ _ _ Ed) in H1. cbn [de_node] in H1. rewrite option_map_ok in H1.
+      assert (Hu : In (k, x) (unknown_entries props0 kvs)).
+      { unfold unknown_entries. apply filter_In. split; [exact Hin|]. cbn [fst].
+        destruct (mem_ustr k (wire_names props0)) eqn:M; [|reflexivity].
+        apply mem_ustr_In in M. apply (proj1 (forallb_forall _ _) Lw) in M. congruence. }
+      assert (H2 := proj1 (mapM_ok _ _) H1 _ Hu). cbn [fst snd] in H2.
+      exists v, f1. split; [exact Lx|]. destruct (de_key (de f1) k0 k); [|congruence]. destruct (de f1 v x); congruence.
+    - (* DMap *)
+      split_and L. rewrite Hap in L0. destruct sa; [discriminate|].
+      destruct (mapM _ kvs) eqn:M; [|discriminate].
+      assert (H := mapM_some_in _ _ _ _ M Hin). cbn [fst snd] in H.
+      exists v, f0. split; [exact L0|]. destruct (de_key (de f0) k0 k); [|congruence]. destruct (de f0 v x); congruence.
+    - split_and L. match goal with H : no_children _ _ _ = true |- _ => unfold no_children in H; split_and H end.
+      match goal with H : match ap with _ => _ end = true |- _ => rewrite Hap in H; destruct sa; discriminate end.
+  Qed.
+End Resolve.
+
+Lemma plain_inv s : plain s = true ->
+  exists ty fmt enum cst nv sv ik items ai mni mxi uq props req ap mnp mxp no dflt title,
+    s = SObj ty fmt enum cst nv sv ik items ai mni mxi uq props req ap mnp mxp None None None no None dflt title.
+Proof.
+  destruct s as [b|ty fmt enum cst nv sv ik items ai mni mxi uq props req ap mnp mxp allo anyo oneo no ref dflt title];
+    [discriminate|].
+  cbn [plain]. destruct ref; [discriminate|]. destruct allo, anyo, oneo; try discriminate. intros _.
+  repeat eexists.
+Qed.
+
+Lemma nonplain_root_ok re D s v : plain s = false -> root_ok re D s v = true.
+Proof.
+  destruct s as [b|ty fmt enum cst nv sv ik items ai mni mxi uq props req ap mnp mxp allo anyo oneo no ref dflt title];
+    [reflexivity|].
+  cbn [plain root_ok]. destruct ref; [reflexivity|]. cbn [is_none negb orb andb].
+  destruct (is_union allo anyo oneo); [reflexivity | discriminate].
+Qed.
+
+Lemma union_inv s bs : union_branches s = Some bs ->
+  exists ty fmt enum cst nv sv ik items ai mni mxi uq props req ap mnp mxp anyo oneo no dflt title,
+    s = SObj ty fmt enum cst nv sv ik items ai mni mxi uq props req ap mnp mxp None anyo oneo no None dflt title
+    /\ ((anyo = Some bs /\ oneo = None) \/ (anyo = None /\ oneo = Some bs)).
+Proof.
+  destruct s as [b|ty fmt enum cst nv sv ik items ai mni mxi uq props req ap mnp mxp allo anyo oneo no ref dflt title];
+    [discriminate|].
+  cbn [union_branches]. destruct allo; [discriminate|]. destruct anyo as [l1|], oneo as [l2|], ref; try discriminate;
+    intros H; inversion H; subst; repeat eexists; auto.
+Qed.
+
+Section Deep.
+  Variables re native : ustring -> ustring -> bool.
+  Variable D : defs.
+  Variable T : space.
+  Variable A : list (ustring * id).
+  Hypothesis HA : exact_all re D T A = true.
+
+  Local Notation de := (Serde.de re native T).
+  Local Notation dv := (Serde.default_val T).
+  Local Notation EX := (exact re D T A).
+
+  Lemma pair_exact r t s : mem_pair_x A r t = true -> resolve_ref D r = Some s -> EX s t = true.
+  Proof.
+    unfold mem_pair_x. intros H Hr. apply existsb_exists in H. destruct H as [[r' t'] [Hin H]].
+    cbn [fst snd] in H. apply andb_true_iff in H. destruct H as [H1 H2].
+    apply ustr_eqb_eq in H1. apply N.eqb_eq in H2. subst r' t'.
+    unfold exact_all in HA. apply (proj1 (forallb_forall _ _) HA) in Hin. cbn [fst snd] in Hin.
+    rewrite Hr in Hin. exact Hin.
+  Qed.
+
+  Lemma ref_resolve r : forall ft t v f x,
+    ref_x T A r ft t = true -> de f t v = Some x -> v <> JNull ->
+    exists t0 f0 x0, mem_pair_x A r t0 = true /\ de f0 t0 v = Some x0.
+  Proof.
+    induction ft as [|ft IH]; intros t v f x G Hde Hn; cbn [ref_x] in G;
+      destruct (mem_pair_x A r t) eqn:M; try (exists t, f, x; split; assumption); try discriminate.
+    destruct (de_some_S re native T _ _ _ _ Hde) as [f' ->].
+    destruct (get_det T t) as [d|] eqn:E; [|discriminate].
+    rewrite (de_at re native T _ _ _ _ E) in Hde.
+    destruct d; try discriminate.
+    - destruct c; try discriminate. cbn [de_node] in Hde. eapply IH; eassumption.
+    - cbn [de_node] in Hde.
+      assert (Hx : exists x', de f' t0 v = Some x') by (destruct v; [congruence | ..]; eapply opt_inner; exact Hde).
+      destruct Hx as [x' Hx']. eapply IH; eassumption.
+    - cbn [de_node] in Hde. eapply IH; eassumption.
+  Qed.
+
+  (* a nullable union resolves to an Option whose inner type represents the non-null branch *)
+  Lemma union_opt_resolve bs b : forall ft t v f x,
+    union_x T EX bs ft t = true -> de f t v = Some x -> v <> JNull ->
+    existsb null_only bs = true -> In b bs -> null_only b = false ->
+    exists t' f' x', EX b t' = true /\ de f' t' v = Some x'.
+  Proof.
+    induction ft as [|ft IH]; intros t v f x G Hde Hn Hnull Hin Hb; [discriminate|].
+    cbn [union_x] in G. destruct (de_some_S re native T _ _ _ _ Hde) as [f' ->].
+    destruct (get_det T t) as [d|] eqn:E; [|discriminate].
+    rewrite (de_at re native T _ _ _ _ E) in Hde.
+    assert (Hnn : no_null bs = false) by (unfold no_null; rewrite Hnull; reflexivity).
+    destruct (wrapper_of d) as [t'|] eqn:W.
+    - destruct d; try discriminate.
+      + destruct c; try discriminate. simpl in W. inversion W. subst. cbn [de_node] in Hde. eapply IH; eassumption.
+      + simpl in W. inversion W. subst. cbn [de_node] in Hde. eapply IH; eassumption.
+    - destruct d; try (rewrite Hnn in G; discriminate G).
+      + (* DEnum *) destruct tag; rewrite Hnn in G; discriminate G.
+      + (* DOption *)
+        apply andb_true_iff in G. destruct G as [_ G].
+        apply (proj1 (forallb_forall _ _) G) in Hin. rewrite Hb in Hin. cbn [orb] in Hin.
+        cbn [de_node] in Hde.
+        assert (Hx : exists x', de f' t0 v = Some x') by (destruct v; [congruence | ..]; eapply opt_inner; exact Hde).
+        destruct Hx as [x' Hx']. exists t0, f', x'. split; assumption.
+  Qed.
+
+  (* a union with a common tag resolves to an enum tagged by it, whose variants are the branch constants *)
+  Lemma tags_match tg bs vs s0 :
+    tags_x tg bs vs = true -> is_variant_raw vs s0 ->
+    existsb (fun b => match branch_tag_of tg b with Some y => ustr_eqb s0 y | None => false end) bs = true.
+  Proof.
+    unfold tags_x. intros H [vr [Hin Hr]]. apply andb_true_iff in H. destruct H as [_ H].
+    apply (proj1 (forallb_forall _ _) H) in Hin. apply existsb_exists in Hin. destruct Hin as [b [Hb Q]].
+    apply existsb_exists. exists b. split; [exact Hb|]. unfold branch_tag in Q.
+    destruct (branch_tag_of tg b) as [y|]; [|discriminate]. subst s0. rewrite ustr_eqb_sym. exact Q.
+  Qed.
+
+  Lemma union_tag_resolve bs tg : forall ft t kvs f x,
+    union_x T EX bs ft t = true -> de f t (JObj kvs) = Some x -> common_tag bs = Some tg ->
+    tag_bad tg bs (JObj kvs) = false.
+  Proof.
+    induction ft as [|ft IH]; intros t kvs f x G Hde Hc; [discriminate|].
+    cbn [union_x] in G. destruct (de_some_S re native T _ _ _ _ Hde) as [f' Ef]. subst f.
+    destruct (get_det T t) as [d|] eqn:E; [|discriminate].
+    assert (Hde0 := Hde). rewrite (de_at re native T _ _ _ _ E) in Hde.
+    assert (Hct : is_none (common_tag bs) = false) by (rewrite Hc; reflexivity).
+    destruct (wrapper_of d) as [t'|] eqn:W.
+    - destruct d; try discriminate.
+      + destruct c; try discriminate. simpl in W. inversion W. subst. cbn [de_node] in Hde. eapply IH; eassumption.
+      + simpl in W. inversion W. subst. cbn [de_node] in Hde. eapply IH; eassumption.
+    - destruct d; try (rewrite Hct, andb_false_r in G; discriminate G).
+      + (* DEnum *)
+        destruct tag; try (rewrite Hct, ?andb_false_r in G; cbn [andb] in G; discriminate G).
+        * (* internal *)
+          apply andb_true_iff in G. destruct G as [G G3]. apply andb_true_iff in G. destruct G as [_ G2].
+          unfold ctag_ok in G2. rewrite Hc in G2. apply ustr_eqb_eq in G2. subst tag.
+          destruct (internal_tag_enforced re native T _ _ _ _ _ _ _ _ _ _ E Hde0) as [kvs' [s0 [Ek [As Hv]]]].
+          inversion Ek. subst kvs'. cbn [tag_bad]. rewrite As. rewrite (tags_match _ _ _ _ G3 Hv). reflexivity.
+        * (* adjacent *)
+          apply andb_true_iff in G. destruct G as [G G3]. apply andb_true_iff in G. destruct G as [_ G2].
+          unfold ctag_ok in G2. rewrite Hc in G2. apply ustr_eqb_eq in G2. subst tag.
+          destruct (adjacent_tag_enforced re native T _ _ _ _ _ _ _ _ _ _ _ E Hde0) as [kvs' [s0 [Ek [As Hv]]]].
+          inversion Ek. subst kvs'. cbn [tag_bad]. rewrite As. rewrite (tags_match _ _ _ _ G3 Hv). reflexivity.
+      + (* DOption *) rewrite Hct in G. discriminate G.
+  Qed.
+
+  (* ---------------------------------------------------------------- the theorem *)
+  Theorem exact_deep_sound : forall s v, viol re D s v -> forall t f, EX s t = true -> de f t v = None.
+  Proof.
+    induction 1 as [s v Hr Ha | s r s' v Hs Hres Hn Hv IH | s k s' kvs x Hp Hin Hk Hn Hv IH
+                    | s s' l x Hp Hit Hin Hn Hv IH | s ss l i s' x Hp Hit Hs Hx Hn Hv IH
+                    | s sa kvs k x Hp Hap Hty Hin Hk Hn Hv IH | s bs b v Hu Hin Hb Hnull Hn Hv IH
+                    | s bs tg v Hu Hc [kvs Ev] Hbad]; intros t f G.
+    - (* here *)
+      destruct (de f t v) as [y|] eqn:Q; [exfalso | reflexivity].
+      assert (Hstd : std_wire_at T FT t v = true); [|rewrite (exact_root_sound re native D T A s t v f y G Q Hstd) in Hr; discriminate].
+      destruct (plain s) eqn:P; [|rewrite (nonplain_root_ok re D s v P) in Hr; discriminate].
+      destruct (plain_inv s P) as (ty & fmt & enum & cst & nv & sv & ik & items & ai & mni & mxi & uq & props & req & ap & mnp & mxp & no & dflt & title & ->).
+      cbn [exact] in G. unfold exact_obj in G. eapply go_std; [exact G | exact Ha].
+    - (* ref *)
+      destruct (de f t v) as [y|] eqn:Q; [exfalso | reflexivity].
+      destruct s as [b|ty fmt enum cst nv sv ik items ai mni mxi uq props req ap mnp mxp allo anyo oneo no ref dflt title];
+        [discriminate|]. cbn [sch_ref] in Hs. subst ref. cbn [exact] in G. unfold exact_obj in G.
+      destruct (ref_resolve r _ _ _ _ _ G Q Hn) as [t0 [f0 [x0 [M Q0]]]].
+      rewrite (IH t0 f0 (pair_exact _ _ _ M Hres)) in Q0. discriminate.
+    - (* property *)
+      destruct (de f t (JObj kvs)) as [y|] eqn:Q; [exfalso | reflexivity].
+      destruct (plain_inv s Hp) as (ty & fmt & enum & cst & nv & sv & ik & items & ai & mni & mxi & uq & props & req & ap & mnp & mxp & no & dflt & title & ->).
+      cbn [exact] in G. unfold exact_obj in G. cbn [sch_props] in Hin.
+      destruct (go_resolve re native D T _ _ _ _ _ _ _ _ _ _ _ _ _ _ _ _ _ _ _ _ G Q) as [ed [dd [d [f0 [x0 [L Hd]]]]]]; [discriminate|].
+      destruct (leaf_prop re native D T _ _ _ _ _ _ _ _ _ _ _ _ _ _ _ _ _ _ _ _ _ _ L Hd Hin Hk Hn) as [t' [f' [Gx Hacc]]].
+      apply Hacc. apply IH. exact Gx.
+    - (* array element *)
+      destruct (de f t (JArr l)) as [y|] eqn:Q; [exfalso | reflexivity].
+      destruct (plain_inv s Hp) as (ty & fmt & enum & cst & nv & sv & ik & items & ai & mni & mxi & uq & props & req & ap & mnp & mxp & no & dflt & title & ->).
+      cbn [exact] in G. unfold exact_obj in G. cbn [sch_items] in Hit. inversion Hit. subst ik items.
+      destruct (go_resolve re native D T _ _ _ _ _ _ _ _ _ _ _ _ _ _ _ _ _ _ _ _ G Q) as [ed [dd [d [f0 [x0 [L Hd]]]]]]; [discriminate|].
+      destruct (leaf_item re native D T _ _ _ _ _ _ _ _ _ _ _ _ _ _ _ _ _ _ _ _ _ L Hd eq_refl eq_refl Hin) as [t' [Gx Hacc]].
+      apply Hacc. apply IH. exact Gx.
+    - (* tuple position *)
+      destruct (de f t (JArr l)) as [y|] eqn:Q; [exfalso | reflexivity].
+      destruct (plain_inv s Hp) as (ty & fmt & enum & cst & nv & sv & ik & items & ai & mni & mxi & uq & props & req & ap & mnp & mxp & no & dflt & title & ->).
+      cbn [exact] in G. unfold exact_obj in G. cbn [sch_items] in Hit. inversion Hit. subst ik items.
+      destruct (go_resolve re native D T _ _ _ _ _ _ _ _ _ _ _ _ _ _ _ _ _ _ _ _ G Q) as [ed [dd [d [f0 [x0 [L Hd]]]]]]; [discriminate|].
+      destruct (leaf_tuple re native D T _ _ _ _ _ _ _ _ _ _ _ _ _ _ _ _ _ _ _ _ _ _ L Hd eq_refl Hs Hx) as [t' [Gx Hacc]].
+      apply Hacc. apply IH. exact Gx.
+    - (* additionalProperties value *)
+      destruct (de f t (JObj kvs)) as [y|] eqn:Q; [exfalso | reflexivity].
+      destruct (plain_inv s Hp) as (ty & fmt & enum & cst & nv & sv & ik & items & ai & mni & mxi & uq & props & req & ap & mnp & mxp & no & dflt & title & ->).
+      cbn [exact] in G. unfold exact_obj in G. cbn [sch_additional_props sch_props] in Hap, Hk.
+      destruct (go_resolve re native D T _ _ _ _ _ _ _ _ _ _ _ _ _ _ _ _ _ _ _ _ G Q) as [ed [dd [d [f0 [x0 [L Hd]]]]]]; [discriminate|].
+      destruct (leaf_addl re native D T _ _ _ _ _ _ _ _ _ _ _ _ _ _ _ _ _ _ _ _ _ _ L Hd Hap Hty Hin Hk Hn) as [t' [f' [Gx Hacc]]].
+      apply Hacc. apply IH. exact Gx.
+    - (* nullable union *)
+      destruct (de f t v) as [y|] eqn:Q; [exfalso | reflexivity].
+      destruct (union_inv s bs Hu) as (ty & fmt & enum & cst & nv & sv & ik & items & ai & mni & mxi & uq & props & req & ap & mnp & mxp & anyo & oneo & no & dflt & title & -> & Hcase).
+      cbn [exact] in G. unfold exact_obj in G.
+      assert (GU : union_x T EX bs FT t = true) by (destruct Hcase as [[-> ->]|[-> ->]]; exact G).
+      destruct (union_opt_resolve bs b _ _ _ _ _ GU Q Hn Hnull Hin Hb) as [t' [f' [x' [Gx Qx]]]].
+      rewrite (IH t' f' Gx) in Qx. discriminate.
+    - (* tag *)
+      subst v. destruct (de f t (JObj kvs)) as [y|] eqn:Q; [exfalso | reflexivity].
+      destruct (union_inv s bs Hu) as (ty & fmt & enum & cst & nv & sv & ik & items & ai & mni & mxi & uq & props & req & ap & mnp & mxp & anyo & oneo & no & dflt & title & -> & Hcase).
+      cbn [exact] in G. unfold exact_obj in G.
+      assert (GU : union_x T EX bs FT t = true) by (destruct Hcase as [[-> ->]|[-> ->]]; exact G).
+      rewrite (union_tag_resolve bs tg _ _ _ _ _ GU Q Hc) in Hbad. discriminate.
+  Qed.
+End Deep.
+
+(* the statement of the property: every assumed pair, every violation at any reachable depth *)
+Theorem exact_sound re native D T A :
+  exact_all re D T A = true ->
+  forall r t s, In (r, t) A -> resolve_ref D r = Some s ->
+  forall v, viol re D s v -> forall f, Serde.de re native T f t v = None.
+Proof.
+  intros HA r t s Hin Hr v Hv f.
+  apply (exact_deep_sound re native D T A HA s v Hv t f).
+  unfold exact_all in HA. apply (proj1 (forallb_forall _ _) HA) in Hin. cbn [fst snd] in Hin.
+  rewrite Hr in Hin. exact Hin.
+Qed.
